@@ -32,6 +32,36 @@ PROPERTIES = {
 }
 
 
+def _c15(o, driver, rng):
+    import contextlib, io
+    import suites_world as sw, monitors_world as mw
+    with contextlib.redirect_stdout(io.StringIO()):
+        suite = sw.suite_versions(rng, o.tier)
+    if driver is not None:
+        o.suites.append(sp.run_suite(driver, suite))
+    vio, n = mw.monitor_c15(suite)
+    o.monitor_stats["impl_monitor_evaluations"] = n
+    o.monitor_stats["impl_monitor_violations"] = len(vio)
+    o.violations.extend(vio)
+
+
+def _c11(o, driver, rng):
+    import suites_world as sw, monitors_world as mw
+    if driver is not None:
+        o.suites.append(sp.run_suite(driver, sp.suite_groups(rng, o.tier)))
+        o.suites.append(sp.run_suite(driver, sw.suite_connect(rng, o.tier)))
+    vio, n = mw.monitor_c11(rng, o.tier)
+    o.monitor_stats["impl_monitor_evaluations"] = n
+    o.monitor_stats["impl_monitor_violations"] = len(vio)
+    o.violations.extend(vio)
+
+
+PROPERTIES["C15"] = {"run": _c15, "assumptions": [
+    "version strings are dot-separated decimal numbers", "in-process transport in the correspondence; the remote proxy shares init_and_get_adapter and always sends time_resolution (modelled, isLocal = false)"]}
+PROPERTIES["C11"] = {"run": _c11, "assumptions": [
+    "one model per simulator in the correspondence worlds", "groups are identified by their path from the main group (identity)"]}
+
+
 def replay(pid: str, path: str) -> int:
     """Re-run the case stored in a replay file against the current tree."""
     rp = json.load(open(path))
